@@ -1,7 +1,7 @@
 #!/bin/bash
 # For every /verif/seeded/<id>: apply patch.diff to a scratch worktree of /repo HEAD, run the quick check of its
 # property against it (VERIF_REPO), expect exit 1 with a VIOLATION line.  Prints one line per seeded change.
-# Run from a snapshot (vp run) or with HERE=/verif; evidence files of the directory it runs in are overwritten.
+# ONLY=<regex> restricts the ids.  Run from a snapshot (vp run) or with HERE=/verif; evidence files of the directory it runs in are overwritten.
 HERE="${HERE:-$(cd "$(dirname "$0")/.." && pwd)}"
 wt=$(mktemp -d /tmp/seedwt-XXXXXX); rmdir "$wt"
 git -C /repo worktree add -q --detach "$wt" HEAD || exit 3
@@ -9,6 +9,7 @@ trap 'git -C /repo worktree remove --force "$wt"' EXIT
 for d in /verif/seeded/*/; do
   id=$(basename "$d"); pid=${id%%-*}
   [ -f "$d/patch.diff" ] || continue
+  if [ -n "$ONLY" ] && ! echo "$id" | grep -Eq "$ONLY"; then continue; fi
   if ! git -C "$wt" apply --check "$d/patch.diff" 2>/dev/null; then echo "$id APPLY-FAILED"; continue; fi
   git -C "$wt" apply "$d/patch.diff"
   out=$(VERIF_REPO="$wt" timeout 1500 /venv/bin/python "$HERE/check.py" "$pid" --tier quick 2>&1); rc=$?
